@@ -215,6 +215,10 @@ class Run:
             return True
         self._regenerated = True
         needs = self.NEEDS.get(self.pid, []) if needs is None else needs
+        if any(n != 'cli_surface' for n in needs):
+            # every translator but the CLI one reads the source through the guard-clause normal form: its correspondence with the proved
+            # function (gen/NormalFormCases.v) is part of their tie
+            needs = ['normal_form'] + list(needs)
         # dry run first (shared lock): in the steady state the generated files are already what the source says and nothing is written
         with CoqLock(shared=True):
             rc, out = sh([PY, str(VERIF / 'translate' / 'regen.py')], 120, cwd=VERIF, env=dict(os.environ, REGEN_DRY='1'))
@@ -222,7 +226,7 @@ class Run:
             with CoqLock():
                 rc, out = sh([PY, str(VERIF / 'translate' / 'regen.py')], 120, cwd=VERIF)
         self.checker_cmds.append('translate/regen.py  (regenerates coq/gen/*.v from /repo)')
-        self.trusted.append('translators translate/{skeleton,cli_surface,formulas,blocks,pipeline,cover,bands}.py + resolve.py (python ast / click introspection, fail-closed)')
+        self.trusted.append('translators translate/{skeleton,cli_surface,formulas,blocks,pipeline,cover,bands}.py + resolve.py (python ast / click introspection, fail-closed); the guard-clause normaliser of resolve.py is tied to its proved model Tie/NormalFormFn.v by gen/NormalFormCases.v (400 seeded bodies, vm_compute)')
         failed = [n for n in needs if re.search(rf'^{n} FAILED', out, re.M) or (rc != 0 and not re.search(rf'^{n} ok', out, re.M))]
         if failed:
             self.broken.append(dict(kind='proof-break', what='translator could not translate the current source (unrecognised construct): ' + ', '.join(failed),
